@@ -156,8 +156,19 @@ def gen_cfg(rng):
 
 
 def gen_hist(rng, cfg, n):
-    kind = rng.choice(['mixed', 'mixed', 'sweep', 'adaptive', 'tiny'])
+    kind = rng.choice(['mixed', 'mixed', 'sweep', 'adaptive', 'tiny', 'long-then-short'])
     t0, t1 = cfg['t0'], cfg['t0'] + cfg['span']
+    if kind == 'long-then-short':
+        # a first query that splits the root far from its midpoint, then many short steps on one side (the refinement of the
+        # dependency tree then meets a node that is already split off-centre), then queries across the old split
+        cut = rng.choice([0.9, 0.8, 0.3])
+        lo, hi = (cut, 1.0) if cut > 0.5 else (0.0, cut)
+        sp = t1 - t0
+        k = max(n - 6, 4)
+        h = [(t0, t0 + cut * sp), (t0 + cut * sp, t1)]
+        h += [(t0 + (lo + (hi - lo) * i / k) * sp, t0 + (lo + (hi - lo) * (i + 1) / k) * sp) for i in range(k)]
+        h += [(t0, t0 + 0.5 * sp), (t0, t0 + cut * sp), (t0, t1), (t0 + 0.5 * sp, t1)]
+        return h, kind
     if kind == 'sweep':
         k = rng.choice([n, n // 2, 150])
         k = max(k, 2)
